@@ -21,3 +21,5 @@ open Bec2Verif.C19
 #print axioms explicit_finds_named_curves
 #print axioms base64_roundtrip
 #print axioms pem_armour_roundtrip
+#print axioms p256_public_key_pem_roundtrip
+#print axioms p256_private_key_pem_roundtrip
